@@ -396,3 +396,60 @@ def run_loc_is_iloc_sites(repo, task):
     if not good:
         rep['detail'] = f'{n_calls} call sites / {n_assign} assignments of loc_is_iloc found: the generator no longer matches the source layout'
     return rep
+
+
+def run_store_config_sites(repo, task):
+    """C17 / C18 site obligations read off the AST (G10): in every Store class, the DEFAULT config of the config map is used only for what
+    is label independent by design (label encode/decode, worker counts, chunk sizes); every other option is taken from `config_map[<label>]`
+    where <label> is the loop variable of the enclosing `for` over the labels / items.  A new use of `config_map.default.<other>` or of
+    `config_map[<something else>]` is a refuted obligation."""
+    import ast
+    t0 = time.time()
+    items, failures = [], []
+
+    def ob(name, ok, note, fn):
+        items.append(dict(name=name, fn=fn, kind='G10', verdict='proved' if ok else 'refuted', backend='ast', ms=0.0, note=note))
+        if not ok:
+            failures.append(dict(key=f'G:{name}', what=f'{name}: {note}', nofail=True, replay=dict(site=name, note=note)))
+    ALLOWED_DEFAULT = {'label_encode', 'label_decode', 'read_max_workers', 'read_chunksize', 'write_max_workers', 'write_chunksize'}
+    core = os.path.join(repo, 'static_frame/core')
+    n = 0
+    for mod in sorted(f for f in os.listdir(core) if f.startswith('store_') and f.endswith('.py') and f not in ('store_filter.py', 'store_client_mixin.py')):
+        tree = ast.parse(open(os.path.join(core, mod)).read())
+        for cls in [c for c in ast.walk(tree) if isinstance(c, ast.ClassDef)]:
+            for fn in [f for f in cls.body if isinstance(f, ast.FunctionDef) and f.name in ('read', 'read_many', 'write', 'labels')]:
+                q = f'{mod}:{cls.name}.{fn.name}'
+                # loop variables naming a label: targets of `for label in labels` / `for label, frame in items`
+                label_vars = set()
+                for loop in [l for l in ast.walk(fn) if isinstance(l, ast.For)]:
+                    t = loop.target
+                    first = t.elts[0] if isinstance(t, ast.Tuple) and t.elts else t
+                    if isinstance(first, ast.Name) and isinstance(loop.iter, ast.Name) and loop.iter.id in ('labels', 'items'):
+                        label_vars.add(first.id)
+                kd = ks = 0
+                for node in ast.walk(fn):
+                    if isinstance(node, ast.Attribute) and isinstance(node.value, ast.Attribute) and node.value.attr == 'default' \
+                            and isinstance(node.value.value, ast.Name) and node.value.value.id == 'config_map':
+                        n += 1
+                        ob(f'{q}:default-use#{kd}:{node.attr}', node.attr in ALLOWED_DEFAULT, f'config_map.default.{node.attr} (label independent options: {sorted(ALLOWED_DEFAULT)})', q)
+                        kd += 1
+                    if isinstance(node, ast.Subscript) and isinstance(node.value, ast.Name) and node.value.id == 'config_map':
+                        n += 1
+                        key = node.slice
+                        ok = isinstance(key, ast.Name) and key.id in label_vars
+                        ob(f'{q}:per-label-config#{ks}', ok, f'config_map[{ast.unparse(key)}] with label loop variables {sorted(label_vars)}', q)
+                        ks += 1
+                # an encoded label must not be used to look the config up: rebinding the label variable before the lookup is checked by order
+                for loop in [l for l in ast.walk(fn) if isinstance(l, ast.For)]:
+                    seen_rebind = None
+                    for s_ in ast.walk(loop):
+                        if isinstance(s_, ast.Assign) and any(isinstance(t_, ast.Name) and t_.id in label_vars for t_ in s_.targets):
+                            seen_rebind = s_.lineno if seen_rebind is None else min(seen_rebind, s_.lineno)
+                    if seen_rebind is not None:
+                        late = [x for x in ast.walk(loop) if isinstance(x, ast.Subscript) and isinstance(x.value, ast.Name) and x.value.id == 'config_map' and x.lineno > seen_rebind]
+                        ob(f'{q}:config-looked-up-before-label-is-encoded', not late, f'label variable rebound at L{seen_rebind}; config_map[...] after it at {[x.lineno for x in late]}', q)
+    rep = dict(name=task['name'], status='ok' if n >= 20 else 'checker-fault', items=items, failures=failures, evaluations=0, distinct=0, rule='',
+               samples=[dict(obligation=i['name'], verdict=i['verdict']) for i in items[:3]], trusted=[], assumptions=[], wall_s=round(time.time() - t0, 2))
+    if n < 20:
+        rep['detail'] = f'only {n} config uses found in the store modules: the generator no longer matches the source layout'
+    return rep
